@@ -21,6 +21,7 @@ var gens = map[string]func(props.Ctx) *report.Report{
 	"C07": props.C07,
 	"C08": props.C08,
 	"C12": props.C12,
+	"C13": props.C13,
 	"C15": props.C15,
 	"C18": props.C18,
 	"C09": props.C09,
